@@ -263,7 +263,7 @@ def values_cases(draw):
         "hist": draw(histories(data["N"])),
         "apply": draw(apply_specs()),
         # "loaded statistics": the accumulated statistics are saved and the transform is applied by a new object built from the file
-        "via": draw(st.sampled_from([None, None, "stats.npy", "stats.npz", "stats.bin", "stats"])),
+        "via": draw(st.sampled_from([None, None, None, "stats.npy", "stats.npz", "stats.bin", "stats", "foreign.npy", "foreign_half.npy"])),
     }
 
 
@@ -372,9 +372,21 @@ def check_values(case):
 
         with tempfile.TemporaryDirectory(prefix="verif_c16_") as td:
             path = os.path.join(td, via)
-            call("save(%s)" % via, s.save, path)
+            if via.startswith("foreign"):
+                # statistics written by ANOTHER program in the layout the class documents by reference (Kaldi's CMVN
+                # statistics, [povey2011]): row 0 = sums and the count, row 1 = sums of squares and an unused 0.
+                # "foreign.npy" holds all vectors; "foreign_half.npy" the first half, the rest is accumulated after loading.
+                h = data.shape[0] if via == "foreign.npy" else max(1, data.shape[0] // 2)
+                d64 = data[:h].astype(np.float64)
+                stats = np.zeros((2, data.shape[1] + 1))
+                stats[0, :-1], stats[0, -1], stats[1, :-1] = d64.sum(axis=0), h, (d64 * d64).sum(axis=0)
+                np.save(path, stats)
+            else:
+                call("save(%s)" % via, s.save, path)
             kw = {} if via.endswith((".npy", ".npz")) else {"force_as": "file"}
             s = call("Standardize(rfilename=%r%s)" % (via, ", force_as='file'" if kw else ""), Standardize, path, norm_var=norm_var, **kw)
+            if via.startswith("foreign") and h < data.shape[0]:
+                call("accumulate after loading", s.accumulate, data[h:], axis=-1)
         require(bool(s.have_stats), "have_stats is false after loading statistics from {}", via)
     app = case["apply"]
     x, axis, atag = make_apply_input(spec, app)
@@ -389,7 +401,8 @@ def check_values(case):
     compare("second apply with the same statistics", out2, ref, tol)
     nontrivial = len(set(tags)) >= 2 and float(mean.min()) < 0
     labels = _labels(spec, tags, mean, norm_var, atag, in_place)
-    labels.append("statistics loaded from ." + via.rsplit(".", 1)[-1] if via and "." in via else ("statistics loaded from a raw file" if via else "statistics accumulated"))
+    labels.append("statistics written by another program" if via and via.startswith("foreign") else
+                  "statistics loaded from ." + via.rsplit(".", 1)[-1] if via and "." in via else ("statistics loaded from a raw file" if via else "statistics accumulated"))
     if any(float(v) == 0.0 for v in spec["s"]) and not spec["dtype"].startswith("i"):
         labels.append("constant coefficient")
     return {"nontrivial": nontrivial, "labels": labels}
